@@ -643,7 +643,9 @@ fn oracle_faults() -> bool {
         ("create_dir_all", Box::new(|k| { let (root, st) = faulty(); st.calls.store(0, Ordering::SeqCst); st.countdown.store(k, Ordering::SeqCst);
             let res = root.join("a/b/c").unwrap().create_dir_all(); let n = st.calls.load(Ordering::SeqCst); st.countdown.store(-1, Ordering::SeqCst);
             let full = ["a", "a/b", "a/b/c"].iter().all(|p| root.join(p).unwrap().is_dir().unwrap());
-            (n, if res.is_ok() && !full { Some("Ok but not every prefix is a directory".into()) } else { None }) })),
+            // C12: a failure names the directory that could not be created (a prefix of the requested path), never a placeholder or a backend path
+            let named = match &res { Err(e) => ["/a", "/a/b", "/a/b/c"].contains(&e.path().as_str()), Ok(()) => true };
+            (n, if res.is_ok() && !full { Some("Ok but not every prefix is a directory".into()) } else if !named { Some(format!("the error names {:?}, not a prefix of the requested path", res.as_ref().err().map(|e| e.path().clone()))) } else { None }) })),
         ("remove_dir_all", Box::new(move |k| { let (root, st) = faulty(); for (p, c) in &t2 { put(&root, p, *c); } st.calls.store(0, Ordering::SeqCst); st.countdown.store(k, Ordering::SeqCst);
             let res = root.join("d").unwrap().remove_dir_all(); let n = st.calls.load(Ordering::SeqCst); st.countdown.store(-1, Ordering::SeqCst);
             (n, if res.is_ok() && root.join("d").unwrap().exists().unwrap() { Some("Ok but the directory still exists".into()) } else { None }) })),
